@@ -62,14 +62,17 @@ def replay(ctx, binary, cases, bigs):
     cp, rp, bp = os.path.join(ctx.tmp, "cases.ndjson"), os.path.join(ctx.tmp, "results.ndjson"), os.path.join(ctx.tmp, "big.ndjson")
     vf.write_ndjson(cp, cases)
     vf.write_ndjson(bp, bigs)
-    rc, out = vf.run_gotest(ctx, binary, "^TestVfC12Replay$", env={"VF_CASES": cp, "VF_RESULTS": rp, "VF_BIG": bp}, timeout=900)
+    rc, out = vf.run_gotest(ctx, binary, "^TestVfC12Replay$", timeout=1500, env={
+        "VF_CASES": cp, "VF_RESULTS": rp, "VF_BIG": bp, "VF_CONC_DECODES": 60000 if ctx.tier == "quick" else 1500000})
     m = re.search(r"^VFSUMMARY (.*)$", out, re.M)
     if not m or not os.path.exists(rp):
         raise vf.Inconclusive("replay driver failed:\n" + out[-3000:])
     summ = json.loads(m.group(1))
-    res, laters, bigres = {}, [], {}
+    res, laters, bigres, concs = {}, [], {}, []
     for r in vf.read_ndjson(rp):
-        if "later_of" in r:
+        if "conc_of" in r:
+            concs.append(r)
+        elif "later_of" in r:
             laters.append(r)
         elif r.get("big"):
             bigres[r["id"]] = r
@@ -82,6 +85,7 @@ def replay(ctx, binary, cases, bigs):
     if bad:
         raise vf.Inconclusive("harness could not build %d cases, e.g. %s" % (len(bad), json.dumps(bad[0])[:400]))
     ctx.log("replayed %d cases on the real Marshal/Unmarshal: %s" % (len(res), summ))
+    ctx.concs = concs
     return res, laters, bigres, summ
 
 
@@ -415,6 +419,59 @@ def judge_later(ctx, cases, results, laters, stats):
                           dict(case=c, result=r, later=l))
 
 
+def judge_later_decodes(ctx, cases, results, laters, stats):
+    """C02: bytes that changed after Marshal returned them (held / concurrent) or that the statement path stored
+    (marshalQueryValue) were decoded by the real Unmarshal into every target of the case: the round trip must
+    still give the value."""
+    byid = {c["id"]: c for c in cases}
+    for l in laters:
+        c, r = byid[l["later_of"]], results[l["later_of"]]
+        if not c["claimed"] or "decs" not in l or l["res_later"]["st"] not in ("ok", "null"):
+            continue
+        for d in l["decs"]:
+            tg, x = c["targets"][d["i"]], d["res"]
+            stats["later_round_trips"] += 1
+            src = "Unmarshal(%s, the bytes of Marshal(%s) %s; first read %s) into %s" % (
+                hexs(l["res_later"]["b"]), show(c), {"held": "read again after later values were marshalled", "concurrent": "read again after concurrent marshals",
+                                                     "concurrent-first": "obtained under concurrent marshals", "statement": "stored by marshalQueryValue, read after the statement's other values"}[l["mode"]],
+                hexs(r["res"]["b"]), kshape(tg["K"]))
+            if x["st"] == "panic":
+                ctx.violation(key_for(c, r["res"], c["spec"], "rt", "panic-" + l["mode"], tg["K"], x.get("err")), src + " panicked: %s" % x.get("err"), dict(case=c, later=l))
+            elif x["st"] == "err":
+                if not tg["mayerr"]:
+                    ctx.violation(key_for(c, r["res"], c["spec"], "rt", "error-" + l["mode"], tg["K"]), src + " fails: %s" % x.get("err"), dict(case=c, later=l))
+            elif x["st"] == "ok" and not same(c["T"], x["gv"], tg["exp"], tg["K"]):
+                ctx.violation(key_for(c, r["res"], c["spec"], "rt", "value-" + l["mode"], tg["K"]),
+                              src + " gives %s, expected %s" % (json.dumps(x["gv"])[:200], json.dumps(tg["exp"])[:200]), dict(case=c, later=l))
+            else:
+                stats["later_round_trips_equal"] += 1
+
+
+def judge_concurrent_decodes(ctx, cases, results, stats, whichs):
+    """Decodes repeated by eight goroutines at the same moment whose result differed from the sequential one:
+    judged against the TLC expectation like any decode (Unmarshal must not share state between calls)."""
+    byid = {c["id"]: c for c in cases}
+    for d in getattr(ctx, "concs", []):
+        if d["which"] not in whichs:
+            continue
+        c, r = byid[d["conc_of"]], results[d["conc_of"]]
+        if not c["claimed"]:
+            continue
+        tg, x = c["targets"][d["i"]], d["res"]
+        phase = "rt" if d["which"] == "real" else "dec"
+        stats["concurrent_decodes_differing"] += 1
+        src = "Unmarshal(%s of %s) into %s, while other goroutines decode other values" % (
+            "reference encoding" if d["which"] == "spec" else "Marshal output " + hexs(r["res"]["b"]), show(c), kshape(tg["K"]))
+        if x["st"] == "panic":
+            ctx.violation(key_for(c, r["res"], c["spec"], phase, "panic-concurrent", tg["K"], x.get("err")), src + " panicked: %s" % x.get("err"), dict(case=c, conc=d))
+        elif x["st"] == "err":
+            if not tg["mayerr"]:
+                ctx.violation(key_for(c, r["res"], c["spec"], phase, "error-concurrent", tg["K"]), src + " fails: %s" % x.get("err"), dict(case=c, conc=d))
+        elif not same(c["T"], x["gv"], tg["exp"], tg["K"]):
+            ctx.violation(key_for(c, r["res"], c["spec"], phase, "value-concurrent", tg["K"]),
+                          src + " gives %s, expected %s" % (json.dumps(x["gv"])[:200], json.dumps(tg["exp"])[:200]), dict(case=c, conc=d))
+
+
 def big_show(b):
     return "%s (protocol %d, element size %d, %d element(s))" % (b["form"], b["p"], b["size"], b["count"])
 
@@ -618,6 +675,7 @@ def run(ctx):
     judge_decoding(ctx, cases, results, st, "spec2")
     judge_vectors(ctx, recs, verdicts, st, "C12")
     judge_later(ctx, cases, results, ctx.extra["laters"], st)
+    judge_concurrent_decodes(ctx, cases, results, st, ("spec",))
     judge_big(ctx, st, "C12")
     ctx.log("stats: %s" % dict(st))
     picks = [c for c in cases if c["fam"] in ("int", "date", "duration", "nested3", "decimal")]
@@ -636,6 +694,7 @@ def run(ctx):
         decodes_into_prefilled_or_reused_destination_identical_to_fresh=st["dec_same_as_fresh"],
         marshal_outputs_held_and_reread=ctx.extra["summ"].get("held", 0), outputs_changed_later=ctx.extra["summ"].get("changed_later", 0),
         statement_bind_values=st["later_statement"], concurrent_marshals=st["later_concurrent_first"],
+        concurrent_decodes=ctx.extra["summ"].get("concurrent_decodes", 0), concurrent_decodes_differing=ctx.extra["summ"].get("concurrent_decodes_differing", 0),
         size_limit_cases=st["big_cases"], size_limit_refusals_expected_and_seen=st["big_refused_ok"], size_limit_encodings_equal=st["big_equal"], size_limit_decodes_equal=st["big_decoded_equal"],
         random_vectors=len(verdicts), random_vectors_claimed=st["vec_claimed"], random_vector_decodes=st["vec_decodes"],
         samples=[sample_of(c, results[c["id"]]) for c in picks[::step][:6]],
